@@ -12,7 +12,7 @@ import (
 func init() {
 	register(&Check{
 		ID: "C17", Level: "exploration", QuickSecs: 150, ThoroughSecs: 1200,
-		Rule:        "grammars over {., [^a], [a\\uFFFD], \"\\uFFFD\", 'a', \"é\"} x {*, !, ?} x seq/choice up to N nodes (quick 4, thorough 5); ALL inputs up to length L (quick 3, thorough 4) over the bytes {a, C3, A9, E2, 82, FF, C0, ED, A0, 80} (valid 2-byte sequence, truncated 3-byte sequence, overlong lead, surrogate lead, stray continuation); AllowInvalidUTF8 on/off. An independent RFC 3629 decoder gives (rune,width) per offset; the reference matches over those and logs every offset advanced onto. Checked: value/text are the original bytes and offsets count bytes (exact value comparison), with the option off the set of positions carrying an 'invalid encoding' error equals the set of invalid bytes advanced onto, with it on there is none. Non-trivial = the parser advanced onto at least one invalid byte.",
+		Rule:        "grammars over {., [^a], [a\\uFFFD], \"\\uFFFD\", 'a', \"é\"} x {*, !, ?} x seq/choice up to N nodes (quick 4, thorough 5); ALL inputs up to length L (quick 3, thorough 4) over the bytes {a, C3, A9, E2, 82, FF, C0, ED, A0, 80} (valid 2-byte sequence, truncated 3-byte sequence, overlong lead, surrogate lead, stray continuation); AllowInvalidUTF8 on/off; plus left-recursive rules E <- E tail / 'a' followed by .* (generated with -support-left-recursion, with and without -optimize-parser) where the invalid byte is first met inside a discarded growth iteration. An independent RFC 3629 decoder gives (rune,width) per offset; the reference matches over those and logs every offset advanced onto. Checked: value/text are the original bytes and offsets count bytes (exact value comparison), with the option off the set of positions carrying an 'invalid encoding' error equals the set of invalid bytes advanced onto, with it on there is none. Non-trivial = the parser advanced onto at least one invalid byte.",
 		Assumptions: []string{"E1 loader", "own RFC 3629 decoder in engine/peg"},
 		Run:         runC17,
 	})
@@ -35,19 +35,43 @@ func encodingOracle(g *peg.Grammar, b *core.Built, in []byte, o *rtapi.RunOpts, 
 			got[e.Pos[2]] = true
 		}
 	}
-	if len(want) != len(got) {
-		return []string{fmt.Sprintf("invalid encoding errors at offsets %v, want %v", keys(got), keys(want))}
-	}
+	same := len(want) == len(got)
 	for k := range want {
 		if !got[k] {
-			return []string{fmt.Sprintf("invalid encoding errors at offsets %v, want %v", keys(got), keys(want))}
+			same = false
 		}
+	}
+	if !same {
+		tag := ""
+		if b.Flags.LeftRecursion && ref.Outcome == peg.OResult {
+			// finding D23: do the positions agree once the errors of discarded growth
+			// iterations are dropped (the reference's own error list models that)?
+			alt := map[int]bool{}
+			for _, e := range ref.Errs {
+				if e.Kind == "encoding" {
+					alt[e.Off] = true
+				}
+			}
+			ok := len(alt) == len(got)
+			for k := range alt {
+				if !got[k] {
+					ok = false
+				}
+			}
+			if ok {
+				tag = quirkTag + "lr-rollback-encoding|"
+			}
+		}
+		return []string{fmt.Sprintf("%sinvalid encoding errors at offsets %v, want %v", tag, keys(got), keys(want))}
 	}
 	if len(want) > 0 && obs.ErrNil {
 		return []string{"invalid bytes were advanced onto but Parse returned a nil error"}
 	}
 	return nil
 }
+
+// quirkTag prefixes a diff that an extra oracle attributes to a known finding.
+const quirkTag = "@quirk:"
 
 func keys(m map[int]bool) []int {
 	var out []int
@@ -78,6 +102,26 @@ func runC17(c *ShardCtx) {
 	fam := &family{gens: gens2, inputs: inputs, opts: []rtapi.RunOpts{{MaxExpr: 300}, {MaxExpr: 300, AllowInvalid: true}}, nontrivial: nontriv,
 		cmp: core.CmpOpts{IgnoreEncodingErrs: true}, extra: encodingOracle, confEvery: 11, confQuota: 1}
 	idx := 0
+	// left-recursive family: an invalid byte first advanced onto inside the last (failing)
+	// growth iteration, whose errors are rolled back, and reached again afterwards
+	{
+		lit := peg.Lit
+		lrFam := *fam
+		lrFam.gens = []core.Gen{{LeftRec: true}, {LeftRec: true, Optimize: true}}
+		lrFam.inputs = peg.Inputs([]string{"a", "\xc3", "\xa9", "\xff", "\x80"}, l+1)
+		for _, tail := range []*peg.Expr{peg.Seq(lit("a"), lit("a")), peg.Seq(lit("a"), peg.Any(), lit("a")), peg.Seq(peg.Cls(true, false, "�"), lit("a")), lit("a")} {
+			for _, rest := range []*peg.Expr{peg.Star(peg.Any()), peg.Opt(peg.Cls(false, false, "a", "�")), lit("")} {
+				idx++
+				if !c.Mine(idx) {
+					continue
+				}
+				g := &peg.Grammar{Rules: []*peg.Rule{
+					{Name: "S", Expr: peg.Action(100, peg.Seq(peg.Label("v", peg.Ref("E")), peg.Label("r", rest.Clone())), "v", "r")},
+					{Name: "E", Expr: peg.Choice(peg.Seq(peg.Ref("E"), tail.Clone()), lit("a"))}}}
+				runGrammar(c, g, &lrFam)
+			}
+		}
+	}
 	for size := 1; size <= n; size++ {
 		for _, body := range en.Size(size) {
 			idx++
